@@ -63,6 +63,9 @@ type Block struct {
 	// (index 0 is an ordinary entry for everything but the keys of dense nodes, where 0 is
 	// the delimiter; a block of ways / relations may well have its first real string there).
 	ZeroString string
+	// Bare makes the PrimitiveBlock message zero bytes long (no string table, no groups):
+	// together with Enc.Raw a blob whose raw field is present and empty.
+	Bare bool
 }
 
 // Group is one primitive group: exactly one of the fields is used.
@@ -445,6 +448,9 @@ func encPlainNode(n *DNode, st *strtab) []byte {
 
 // PrimitiveBlock returns the serialized PrimitiveBlock message.
 func (b *Block) PrimitiveBlock() []byte {
+	if b.Bare {
+		return []byte{}
+	}
 	st := newStrtabZ(b.ExtraStrings, b.EmptyAtZero)
 	if b.ZeroString != "" {
 		st.s[0] = b.ZeroString
